@@ -196,7 +196,7 @@ def run_settings_ops(ctx):
             elif kind == "D":
                 ops.append(("D", r.choice(DTS)))
             else:
-                ns = r.choice([None, None, None, cur_start, cur_start - 5])  # never move the start past the end year (user error, outside the domain)
+                ns = r.choice([None, None, None, cur_start, cur_start - 5, cur_start - 4.4, cur_start - 0.6])  # never move the start past the end year (user error, outside the domain); also OFF the old grid
                 if ns is not None:
                     cur_start = ns
                 ne = r.choice([None, cur_start + 5 + r.choice([1.1, 2, 3.35, 7.77, 10, 20.5])])
